@@ -10,15 +10,21 @@
    that return in this step with their results; the harness starts the call and waits for
    exactly those returns.
 
-   The receiver is the one without a pubsub topic (nil host); the order of checks is the one
-   of announceCheck: allow filter -> closed -> duplicate filter.                              *)
+   The order of checks is the one of announceCheck: allow filter -> closed -> duplicate filter.
+
+   PubKinds # {} adds announcements that arrive over pubsub and are handled by the watcher goroutine
+   (one step = the watcher handles one message; a watcher blocked on the full out channel takes the
+   place of the one blocked sender): "plain" (sent by the publisher itself), "relayed" (re-published by
+   another host with the original publisher in the message: attributed to the original publisher, whose
+   ID the allow filter sees), "self" (a re-publication by this very host: ignored before any filter).   *)
 EXTENDS Integers, Sequences, FiniteSets, TLC, VerifIO
 
-CONSTANTS Cids, Peers, Allowed, AddrClasses, K, MaxOps, MaxCloses, EXPORT, FIXED
+CONSTANTS Cids, Peers, Allowed, AddrClasses, K, MaxOps, MaxCloses, EXPORT, FIXED, PubKinds
 VARIABLES lru, out, closed, leaked, bsend, brecv, ops, closes, h,
+          bwatch,               \* the blocked sender is the watcher (no API call returns when it is released)
           sinceG, keptG, remG   \* ghosts for the declarative reading of the duplicate rule
-vars == <<lru, out, closed, leaked, bsend, brecv, ops, closes, h, sinceG, keptG, remG>>
-view == <<lru, out, closed, leaked, bsend, brecv, ops, closes, sinceG, keptG, remG>>
+vars == <<lru, out, closed, leaked, bsend, brecv, ops, closes, h, bwatch, sinceG, keptG, remG>>
+view == <<lru, out, closed, leaked, bsend, brecv, ops, closes, bwatch, sinceG, keptG, remG>>
 
 NoMsg == [cid |-> "", peer |-> "", addrs |-> ""]
 (* address filtering (WithFilterIPs): what is left of an address-list class after FilterPublic *)
@@ -26,7 +32,7 @@ Filter(a) == CASE a = "pub+priv" -> "pub" [] a = "priv" -> "none" [] a = "loop+p
 Msg(c, p, a) == [cid |-> c, peer |-> p, addrs |-> Filter(a)]
 Show(m) == "msg:" \o m.cid \o ":" \o m.peer \o ":" \o m.addrs
 Init == /\ lru = <<>> /\ out = <<>> /\ closed = FALSE /\ leaked = FALSE
-        /\ bsend = NoMsg /\ brecv = FALSE /\ ops = 0 /\ closes = 0 /\ h = <<>>
+        /\ bsend = NoMsg /\ brecv = FALSE /\ ops = 0 /\ closes = 0 /\ h = <<>> /\ bwatch = FALSE
         /\ sinceG = [c \in Cids |-> {}] /\ keptG = [c \in Cids |-> {}] /\ remG = [c \in Cids |-> FALSE]
 
 Has(c) == \E i \in 1..Len(lru) : lru[i] = c
@@ -62,14 +68,14 @@ Direct(c, p, a) ==
   /\ Budget /\ (~leaked \/ p \notin Allowed)
   /\ IF p \notin Allowed
      THEN /\ RecLA("direct", c, p, a, <<Ret("self", "ok")>>, "filtered", lru)
-          /\ UNCHANGED <<lru, out, closed, leaked, bsend, brecv, closes, sinceG, keptG, remG>>
+          /\ UNCHANGED <<lru, out, closed, leaked, bsend, brecv, closes, bwatch, sinceG, keptG, remG>>
      ELSE IF closed
      THEN /\ RecLA("direct", c, p, a, <<Ret("self", "closed")>>, "closed", lru)
-          /\ UNCHANGED <<lru, out, closed, leaked, bsend, brecv, closes, sinceG, keptG, remG>>
+          /\ UNCHANGED <<lru, out, closed, leaked, bsend, brecv, closes, bwatch, sinceG, keptG, remG>>
      ELSE IF Has(c)
      THEN /\ lru' = Update(c) /\ Sight(c)
           /\ RecLA("direct", c, p, a, <<Ret("self", "ok")>>, IF MustDrop(c) THEN "drop" ELSE "either", Update(c))
-          /\ UNCHANGED <<out, closed, leaked, bsend, brecv, closes>>
+          /\ UNCHANGED <<out, closed, leaked, bsend, brecv, closes, bwatch>>
      ELSE /\ lru' = Update(c) /\ Sight(c)
           /\ LET exp == IF MustDeliver(c) THEN "deliver" ELSE "either" IN
              IF brecv                      \* a consumer is waiting: hand the message over, both return
@@ -81,28 +87,51 @@ Direct(c, p, a) ==
              ELSE /\ bsend = NoMsg          \* channel full: this Direct blocks (at most one)
                   /\ bsend' = Msg(c, p, a) /\ UNCHANGED <<out, brecv>>
                   /\ RecLA("direct", c, p, a, <<>>, exp, Update(c))
+          /\ UNCHANGED <<closed, leaked, closes, bwatch>>
+
+(* an announcement arriving over pubsub, handled by the watcher; the history records what the harness must publish *)
+Pubsub(c, p, a, kind) ==
+  /\ Budget /\ ~leaked /\ ~(bsend # NoMsg /\ bwatch)           \* the watcher is not stuck on the out channel
+  /\ IF kind = "self" \/ p \notin Allowed \/ closed            \* own re-publication / refused source / closed: no effect
+     THEN /\ RecLA("pubsub-" \o kind, c, p, a, <<>>, IF closed THEN "closed" ELSE IF kind = "self" THEN "ignored" ELSE "filtered", lru)
+          /\ UNCHANGED <<lru, out, closed, leaked, bsend, brecv, closes, bwatch, sinceG, keptG, remG>>
+     ELSE IF Has(c)
+     THEN /\ lru' = Update(c) /\ Sight(c)
+          /\ RecLA("pubsub-" \o kind, c, p, a, <<>>, IF MustDrop(c) THEN "drop" ELSE "either", Update(c))
+          /\ UNCHANGED <<out, closed, leaked, bsend, brecv, closes, bwatch>>
+     ELSE /\ lru' = Update(c) /\ Sight(c)
+          /\ LET exp == IF MustDeliver(c) THEN "deliver" ELSE "either" IN
+             IF brecv
+             THEN /\ brecv' = FALSE /\ UNCHANGED <<out, bsend, bwatch>>
+                  /\ RecLA("pubsub-" \o kind, c, p, a, <<Ret("next", Show(Msg(c, p, a)))>>, exp, Update(c))
+             ELSE IF out = <<>>
+             THEN /\ out' = <<Msg(c, p, a)>> /\ UNCHANGED <<bsend, brecv, bwatch>>
+                  /\ RecLA("pubsub-" \o kind, c, p, a, <<>>, exp, Update(c))
+             ELSE /\ bsend = NoMsg          \* channel full: the watcher blocks
+                  /\ bsend' = Msg(c, p, a) /\ bwatch' = TRUE /\ UNCHANGED <<out, brecv>>
+                  /\ RecLA("pubsub-" \o kind, c, p, a, <<>>, exp \o "+blocks", Update(c))
           /\ UNCHANGED <<closed, leaked, closes>>
 
 Next ==
   /\ Budget /\ ~brecv
   /\ IF out # <<>> /\ ~closed
-     THEN /\ Rec("next", "", "", IF bsend # NoMsg
+     THEN /\ Rec("next", "", "", IF bsend # NoMsg /\ ~bwatch
                                  THEN <<Ret("self", Show(out[1])), Ret("send", "ok")>>
                                  ELSE <<Ret("self", Show(out[1]))>>, "")
           /\ out' = IF bsend # NoMsg THEN <<bsend>> ELSE <<>>
-          /\ bsend' = NoMsg /\ UNCHANGED brecv
+          /\ bsend' = NoMsg /\ bwatch' = FALSE /\ UNCHANGED brecv
      ELSE IF closed
      THEN (* done is closed; if an item is still queued Go's select may take either arm *)
           /\ Rec("next", "", "", <<Ret("self", IF out # <<>> THEN "closed-or-msg" ELSE "closed")>>, "")
-          /\ out' = <<>> /\ UNCHANGED <<bsend, brecv>>
-     ELSE /\ brecv' = TRUE /\ Rec("next", "", "", <<>>, "") /\ UNCHANGED <<out, bsend>>
+          /\ out' = <<>> /\ UNCHANGED <<bsend, brecv, bwatch>>
+     ELSE /\ brecv' = TRUE /\ Rec("next", "", "", <<>>, "") /\ UNCHANGED <<out, bsend, bwatch>>
   /\ UNCHANGED <<lru, closed, leaked, closes, sinceG, keptG, remG>>
 
 Uncache(c) ==
   /\ Budget /\ ~leaked
   /\ lru' = Without(lru, c) /\ Forget(c)
   /\ RecL("uncache", c, "", <<Ret("self", "ok")>>, "", Without(lru, c))
-  /\ UNCHANGED <<out, closed, leaked, bsend, brecv, closes>>
+  /\ UNCHANGED <<out, closed, leaked, bsend, brecv, closes, bwatch>>
 
 (* Close: the first one wakes everybody; a later one returns nil.  FIXED = FALSE: the early
    return of a repeated Close keeps the mutex (leaked), so every later call that needs it hangs. *)
@@ -111,14 +140,15 @@ Close ==
   /\ IF closed
      THEN /\ leaked' = ~FIXED
           /\ Rec("close", "", "", <<Ret("self", "ok")>>, "")
-          /\ UNCHANGED <<closed, bsend, brecv>>
+          /\ UNCHANGED <<closed, bsend, brecv, bwatch>>
      ELSE /\ closed' = TRUE /\ UNCHANGED leaked
-          /\ Rec("close", "", "", <<Ret("self", "ok")>> \o (IF bsend # NoMsg THEN <<Ret("send", "closed")>> ELSE <<>>)
+          /\ Rec("close", "", "", <<Ret("self", "ok")>> \o (IF bsend # NoMsg /\ ~bwatch THEN <<Ret("send", "closed")>> ELSE <<>>)
                                    \o (IF brecv THEN <<Ret("next", "closed")>> ELSE <<>>), "")
-          /\ bsend' = NoMsg /\ brecv' = FALSE
+          /\ bsend' = NoMsg /\ brecv' = FALSE /\ bwatch' = FALSE
   /\ UNCHANGED <<lru, out, sinceG, keptG, remG>>
 
 NextStep == \/ \E c \in Cids, p \in Peers, a \in AddrClasses : Direct(c, p, a)
+            \/ \E c \in Cids, p \in Peers, a \in AddrClasses, k \in PubKinds : Pubsub(c, p, a, k)
             \/ Next \/ Close \/ \E c \in Cids : Uncache(c)
 Spec == Init /\ [][NextStep]_vars
 
